@@ -667,9 +667,22 @@ def _conversion(ctx):
             ok, why = False, "the edge is (%s, %s): not (parent = edge[0], child = edge[1]) of the same rustworkx edge, so successors() would not be the children" % (show(it.items[0]), show(it.items[1]))
     ctx.check(ok, "X3", "convert_rustworkx_to_networkx: edge direction parent -> child preserved", f.where(dig[0].node), why, construct=Q, stmt="edge direction")
     ups = [e for e in ex.events if e.name == ".update"]
-    ok, why = bool(ups), "no node payload is attached (nodes[...].update(node.to_dict()) missing)"
     G = Poly.atom(("call", dig[0].name, tuple(vkey(a) for a in dig[0].args), ()))
-    for e in ups:
+    # networkx: G.add_node(n, **attrs) updates the attributes of n (creating it if need be): the other way of attaching
+    adds = [e for e in ex.events if e.name == ".add_node" and "**" in e.kwargs and len(e.args) == 1]
+    if not ups and adds:
+        ok, why = True, ""
+        for e in adds:
+            a = _atom(e.kwargs["**"])
+            nid = _atom(e.args[0])
+            good = (a is not None and a[0] == "mcall" and a[1] == "to_dict" and nid is not None and nid[0] == "attr" and nid[2] == "node_id" and nid[1] == a[2]
+                    and _strip_upd(vkey(e.recv)) == vkey(G) and list(e.guards) == list(dig[0].guards))
+            if not good:
+                ok, why = False, "%s.add_node(%s, **%s): the payload of a node is not attached under that node's own node_id in the new graph" % (show(e.recv), show(e.args[0]), show(e.kwargs["**"]))
+        ctx.check(ok, "X3", "convert_rustworkx_to_networkx: node payload attached under the node's id", f.where(adds[0].node), why, construct=Q, stmt="node payload")
+        ups = None
+    ok, why = bool(ups), "no node payload is attached (nodes[...].update(node.to_dict()) missing)"
+    for e in (ups or []):
         r = _atom(e.recv)
         a = _atom(e.args[0]) if len(e.args) == 1 else None
         good = False
@@ -679,7 +692,8 @@ def _conversion(ctx):
             good = holder is not None and holder[0] == "attr" and holder[2] == "nodes" and _strip_upd(holder[1]) == vkey(G) and nid is not None and nid[0] == "attr" and nid[2] == "node_id" and nid[1] == a[2]
         if not good:
             ok, why = False, "%s.update(%s): the payload of a node is not attached under that node's own node_id in the new graph" % (show(e.recv), show(e.args[0]) if e.args else "")
-    ctx.check(ok, "X3", "convert_rustworkx_to_networkx: node payload attached under the node's id", f.where(ups[0].node) if ups else f.where(), why, construct=Q, stmt="node payload")
+    if ups is not None:
+        ctx.check(ok, "X3", "convert_rustworkx_to_networkx: node payload attached under the node's id", f.where(ups[0].node) if ups else f.where(), why, construct=Q, stmt="node payload")
     # table agreement: keys read from a node dict in map.py are written by to_dict or by map.py itself
     td = prog.fn("TreeNode.to_dict")
     written = set()
